@@ -176,6 +176,10 @@ Definition prog_ok (x : option (list Qc)) (y : list Qc) (e : option exn) (steps 
             c = {"x": gens.sorted_x(rng, m), "y": gens.values(rng, m), "seed": rng.randrange(1 << 30),
                  "len": rng.randint(0, self.max_len), "pool": pool, "as_list": rng.random() < 0.3, "int_x": False,
                  "x_none": rng.random() < 0.05, "invalid": self.invalid}
+            if rng.random() < 0.12:
+                # integer-typed values (packet counts): every operation must treat them as numbers, not keep the integer dtype
+                c["y"] = [float(rng.randint(-9, 9)) for _ in c["y"]]
+                c["int_y"] = True
             if rng.random() < 0.15:
                 c["x"] = [float(round(v)) + i for i, v in enumerate(c["x"])]
                 c["x"] = sorted(set(c["x"]))
@@ -191,9 +195,14 @@ Definition prog_ok (x : option (list Qc)) (y : list Qc) (e : option exn) (steps 
                 for pre in ([], [rng.choice(keep_y)], [rng.choice(keep_x)], [rng.choice(keep_y), rng.choice(keep_y)]):
                     pre = [p for p in pre if p in pool]
                     m = rng.randint(5, 9)
-                    cases.append({"x": gens.sorted_x(rng, m), "y": gens.values(rng, m), "seed": rng.randrange(1 << 30),
-                                  "len": len(pre) + 1, "first_ops": pre + [name], "pool": pool, "as_list": False, "int_x": False,
-                                  "x_none": False, "invalid": self.invalid})
+                    cy_ = {"x": gens.sorted_x(rng, m), "y": gens.values(rng, m), "seed": rng.randrange(1 << 30),
+                           "len": len(pre) + 1, "first_ops": pre + [name], "pool": pool, "as_list": False, "int_x": False,
+                           "x_none": False, "invalid": self.invalid}
+                    if rng.random() < 0.4 and not any(p_ in ("shift_y", "scale_y", "normalize_y") for p_ in pre):
+                        # ... and from integer-typed values: the first writer sees an int64 array
+                        cy_["y"] = [float(rng.randint(-9, 9)) for _ in range(m)]
+                        cy_["int_y"] = True
+                    cases.append(cy_)
         if "smooth" in pool and "append" in pool:
             # closed series (first value = last value, as append_one_sample(make_periodic=True) produces) that are far from
             # mirror-symmetric: an abrupt change right after the start, a calm end — smoothed with several conditions
@@ -356,7 +365,7 @@ Definition prog_ok (x : option (list Qc)) (y : list Qc) (e : option exn) (steps 
                 return None
             return {"op": name, "s": rng.choice([0.0, 0.5, 10.0, None])}
         if name == "noise":
-            return {"op": name, "snr": rng.choice([10.0, 20.0, 0.0]), "in_db": rng.random() < 0.7}
+            return {"op": name, "snr": rng.choice([10.0, 20.0, 0.0]), "in_db": rng.random() < 0.7, "omit_default": rng.random() < 0.5}
         if name == "restore":
             return {"op": "restore"}
         if name == "slice_by_index":
@@ -378,8 +387,11 @@ Definition prog_ok (x : option (list Qc)) (y : list Qc) (e : option exn) (steps 
         n = len(x)
         kind = rng.choice(kinds) if kinds else rng.choice(["n_below_2", "rule_t", "rule_r", "strategy", "method", "fixed_not_in_x", "fixed_too_many", "trunc_inverted",
                            "trunc_inverted_ratio", "index_start", "index_stop", "slice_start", "slice_stop", "slice_value_absent",
-                           "grid_ends", "grid_ends_permuted", "interp_none"])
+                           "grid_ends", "grid_ends_permuted", "grid_ends_near", "slice_value_near", "interp_none"])
         mid = float((x[0] + x[1]) / 2) if n >= 2 else 0.5
+
+        def near(v):
+            return max(abs(float(v)) * 2.0 ** -20, 2.0 ** -30)
         d = {"n_below_2": {"op": "recreate", "n": rng.choice([1, 0, -3]), "strategy": rng.choice(["pc", "linfixed", "linadapt", "expfixed", "expadapt", "cubic"]),
                            "alpha": 1.0, "a": None, "beta": 0.5, "exp": 2.0, "smooth": 1.0},
              "rule_t": {"op": "integral_match", "rt": "simpson", "rr": "rectangle", "alpha": 1.0},
@@ -401,6 +413,13 @@ Definition prog_ok (x : option (list Qc)) (y : list Qc) (e : option exn) (steps 
              "grid_ends_permuted": {"op": "interpolate", "new_x": rng.choice([[float(x[0]), float(x[-1]), mid], [mid, float(x[0]), float(x[-1])],
                                                                                [float(x[-1]), mid, float(x[0])]]),
                                     "as_list": rng.random() < 0.5, "method": rng.choice(["linear", "constant"])},
+             # a grid that misses an end point by a hair (relative 2^-20: inside np.isclose's default tolerance, far outside rounding)
+             "grid_ends_near": {"op": "interpolate",
+                                "new_x": ([float(x[0]), mid, float(x[-1]) - near(x[-1])] if rng.random() < 0.5 else [float(x[0]) + near(x[0]), mid, float(x[-1])]),
+                                "as_list": rng.random() < 0.5, "method": rng.choice(["linear", "constant"])},
+             # a slicing value a hair off a sample
+             "slice_value_near": {"op": "slice_by_value", "start": float(x[0]) + near(x[0]) if rng.random() < 0.5 else None,
+                                  "stop": float(x[-1]) - near(x[-1]), "step": 1},
              "interp_none": {"op": "interpolate", "method": "linear"},
              }[kind]
         if kind == "slice_value_absent" and d["start"] is None and d["stop"] is None:
@@ -468,7 +487,10 @@ Definition prog_ok (x : option (list Qc)) (y : list Qc) (e : option exn) (steps 
             old = np.random.normal
             np.random.normal = rec
             try:
-                w.noise(o["snr"], snr_in_db=o["in_db"])
+                if o["in_db"] and o.get("omit_default"):
+                    w.noise(o["snr"])                      # decibels are the documented default: rely on it
+                else:
+                    w.noise(o["snr"], snr_in_db=o["in_db"])
             finally:
                 np.random.normal = old
         elif name == "restore":
@@ -486,7 +508,7 @@ Definition prog_ok (x : option (list Qc)) (y : list Qc) (e : option exn) (steps 
         rng = random.Random(c["seed"])
         rec = DrawRecorder(rng)
         xin = np.array(c["x"], dtype=np.int64 if c["int_x"] else float)
-        yin = np.array(c["y"], dtype=float)
+        yin = np.array(c["y"], dtype=np.int64 if c.get("int_y") else float)
         cx, cy = xin.copy(), yin.copy()
         out = {"steps": [], "ctor": None}
         try:
@@ -774,7 +796,9 @@ Definition prog_ok (x : option (list Qc)) (y : list Qc) (e : option exn) (steps 
                 a = max(lows) if lows else 0
                 b = min(highs) if highs else len(x) - 1
                 if S[kx] != x[a:b + 1] or S[ky] != y[a:b + 1]:
-                    fail("C11", "truncate-by-value", "step %d: %s series cut to %s, smallest covering run is %s" % (i, "working" if kx == 0 else "reference", S[kx], x[a:b + 1]))
+                    # C11 (the requested range) — and C08: the series are no longer the original "with exactly those transformations applied"
+                    fail("C11" if "C11" in self.aspects else "C08", "truncate-by-value",
+                         "step %d: %s series cut to %s, smallest covering run is %s" % (i, "working" if kx == 0 else "reference", S[kx], x[a:b + 1]))
         elif name == "repeat":
             r = op["r"]
             for kx, ky in ((0, 1), (4, 5)):
